@@ -277,6 +277,25 @@ def _traj(spec, ctx, R):
             except Exception as e:
                 val = float("inf")
             ctx.check("dense_sparse_identical", val, 1.0, site=site, tags=tg(kk, val, 1.0, 1.0) if val > 1 else base_tags)
+            # the SAME sparse container solved again after its stored entries were updated in place (a regularisation sweep): the run
+            # has to describe the container's CURRENT entries - compared with a run on a dense copy of them
+            try:
+                As.real.data[...] = As.real.data * 0.5 + 0.25
+                As.k.data[...] = -As.k.data
+                if As.real.shape[0] and As.real.shape[1]:
+                    As.real.setdiag(As.real.diagonal() + 1.5)
+                Anow = refq.qa(np.stack([As.real.toarray(), As.i.toarray(), As.j.toarray(), As.k.toarray()], axis=-1))
+                Xs2, ress2, covs2 = solver(kk).compute(As)
+                Xd2, resd2, covd2 = solver(kk).compute(Anow)
+                nm2 = max(refq.fro(Xd2), 1e-300)
+                kap2 = embed.cond(Anow) if min(Anow.shape) and refq.fro(Anow) > 0 else 1.0
+                dev2 = refq.fro(Xs2 - Xd2) / (CT * EPS * (kk + 2) * max(m, n) * min(kap2, 1e12) * nm2 + 1e-300)
+                ok_len2 = all(len(ress2[key]) == len(resd2[key]) for key in resd2) and len(covs2) == len(covd2)
+                ctx.hit("history:sparse_container_updated_in_place")
+                ctx.check("dense_sparse_identical", dev2 if ok_len2 else float("inf"), 1.0, site=site + ":same_container_after_inplace_update", tags=base_tags,
+                          detail={"shape": [m, n], "budget": kk})
+            except Exception as e:
+                ctx.check("dense_sparse_identical", False, site=site + ":same_container_after_inplace_update", tags=base_tags, detail={"exception": repr(e)[:200]})
     ctx.check("input_unchanged", np.array_equal(refq.fa(A), A0), site="all", tags=base_tags)
 
 
